@@ -65,13 +65,21 @@ Definition obs_eqb (a c : obs) : bool :=
   nats_eqb (o_ws a) (o_ws c) && Nat.eqb (o_subs a) (o_subs c) && Nat.eqb (o_pcl a) (o_pcl c) &&
   Bool.eqb (o_bad a) (o_bad c).
 
+(* a Pause and a Resume both wait for the mutex: which one gets it first is the Go runtime's
+   choice and decides the outcome; the exact comparison stops there (the monitors do not) *)
+Definition ambiguous (s : state) : bool :=
+  existsb (fun c => match ct s c with CPStart => true | _ => false end) (seq 0 (nc s)) &&
+  existsb (fun c => match ct s c with CRStart => true | _ => false end) (seq 0 (nc s)).
+
 (* true = the implementation's observations differ from the model's at some round *)
 Fixpoint diff_rounds (v : variant) (s : state) (rs : list (list op * obs)) : bool :=
   match rs with
   | [] => false
   | (ops, o) :: r =>
-      let s' := settle v (fold_left (apply_op v) ops s) in
-      if obs_eqb (project s') o then diff_rounds v s' r else true
+      let s0 := fold_left (apply_op v) ops s in
+      if ambiguous s0 then false
+      else let s' := settle v s0 in
+           if obs_eqb (project s') o then diff_rounds v s' r else true
   end.
 
 Definition diff_case_v (v : variant) (c : pcase) : bool :=
